@@ -258,6 +258,10 @@ def run(ctx):
                         continue
                 got_.add(_dir_of(c_, cv_, tlv_))
         ctx.ob("R-REG", "C20.3", rt_, f"stopping criterion `{name_}` is met in the direction in which it converges ({want_}: {why_})", got_ == {want_}, f"tested as {sorted(got_)}")
+    # an option attribute that is compared as stored must be stored normalised (class-level R-NORM)
+    from ..rules import optnorm as _on2
+    for _f, _n, _ok, _why in _on2.scan_attributes(prog):
+        ctx.ob("R-NORM", "C20.3", _f, "an option that is accepted case-insensitively and compared as stored is stored in its normalised spelling", _ok, _why, node=_n)
     ctx.floor("C20.3", 60)
     ctx.floor("C20.5", 6)
 
